@@ -183,6 +183,10 @@ func loadProgram(dir string) (*Program, error) {
 			}
 		}
 	}
+	// may-write sets (fixpoint over the call graph), computed eagerly: loop and call havoc depend on them
+	if len(p.allFns) > 0 {
+		p.modset(p.allFns[0])
+	}
 	// every contract must name an existing function: a renamed function is a load error, not a vacuous clause
 	for _, name := range p.cs.funcNames() {
 		if _, ok := p.funcs[name]; !ok {
